@@ -7,8 +7,11 @@
   blocks, the canonical-number clean-up scans until the first gap).
 
   Variants (two independent switches, so that a tree with only one of the two changes is still recognised):
-  * `Variant.head`   — the code as written (since fix commits 141a732 and deec78d): the incoming block's batch is flushed
-    before `reorg` re-points the head, and `insert` writes the canonical number and the head markers in ONE batch.
+  * `Variant.head`   — the code as written (fix commits 141a732, deec78d, 3f14ce8): the incoming block's batch is flushed
+    before `reorg` re-points the head; `insert` writes the canonical number and the head markers in ONE batch which, when
+    the heads move, also deletes the number entries above the block, drops the lookups of the displaced blocks and
+    re-points stale entries below; `reorg` has no clean-up loop.
+  * `Variant.fix1`   — the same without 3f14ce8 (plain atomic insert, clean-up loop in `reorg`).
   * `Variant.preFix` — the tree before those commits: `reorg` ran (re-pointing canonical numbers and the three head
     markers block by block, each with separate puts) BEFORE the incoming block's own batch was flushed.  Kept as
     documentation of the two crash windows it had (witness theorems in Props/C04) and so that a revert is recognised.
@@ -20,15 +23,21 @@
 import Aqv.Model.ChainDb
 namespace Aqv.ChainDb
 
-/-- `batchFirst`: the incoming block's batch is flushed before `reorg` re-points the head; `atomicInsert`: `insert` writes the
-    canonical number and the head markers in one batch. -/
+/-- `batchFirst`: the incoming block's batch is flushed before `reorg` re-points the head (141a732); `atomicInsert`: `insert`
+    writes the canonical number and the head markers in one batch (deec78d); `insertCleans`: when it moves the heads, that
+    batch also deletes the number entries above the block, drops the lookups of the blocks it displaces and re-points
+    stale entries below, and `reorg` has no clean-up loop of its own any more (3f14ce8; only meaningful with
+    `atomicInsert`). -/
 structure Variant where
   batchFirst : Bool
   atomicInsert : Bool
+  insertCleans : Bool := false
   deriving DecidableEq, Repr
 
-def Variant.head : Variant := ⟨true, true⟩
-def Variant.preFix : Variant := ⟨false, false⟩
+def Variant.head : Variant := ⟨true, true, true⟩
+/-- the tree between deec78d/141a732 and 3f14ce8 -/
+def Variant.fix1 : Variant := ⟨true, true, false⟩
+def Variant.preFix : Variant := ⟨false, false, false⟩
 
 structure Blk where
   hash : Hash
@@ -81,10 +90,44 @@ def bodyTxs (db : Db) (h : Hash) : List Nat :=
 
 /-! ### insert -/
 
+/-- `dropLookups(hash, number)` of `insert`: the lookup entries of the block's transactions that point at this block -/
+def dropLookupsW (db : Db) (h : Hash) : Writes :=
+  ((bodyTxs db h).filter fun t => get db (.lookup t) == some (.ref h)).map fun t => (Key.lookup t, none)
+
+/-- `for i := n+1; ; i++ { old := GetCanonicalHash(i); if old == {} { break }; dropLookups(old, i); DeleteCanonicalHash(batch, i) }`
+    (reads go to the database, writes to the batch) -/
+def cleanAboveW (db : Db) : Nat → Nat → Writes
+  | 0, _ => []
+  | fuel + 1, i =>
+    match canonHash db i with
+    | none => []
+    | some old => dropLookupsW db old ++ [(Key.canon i, none)] ++ cleanAboveW db fuel (i + 1)
+
+/-- "overwrite any stale assignments below": walk parents from (hash, number) until the index agrees or a header is missing -/
+def repointBelowW (db : Db) : Nat → Hash → Nat → Writes
+  | 0, _, _ => []
+  | fuel + 1, h, n =>
+    if canonHash db n = some h then []
+    else
+      match getHeader db h n with
+      | none => []
+      | some hd =>
+        (match canonHash db n with | some old => dropLookupsW db old | none => []) ++ [(Key.canon n, some (Val.ref h))] ++
+          (if n = 0 then [] else repointBelowW db fuel hd.parent (n - 1))
+
+/-- the extra writes of `insert` since 3f14ce8 (only when the heads move) -/
+def insertCleanW (db : Db) (parent : Option Hash) (n : Nat) (aboveFuel : Nat) : Writes :=
+  (match canonHash db n with | some old => dropLookupsW db old | none => []) ++
+  cleanAboveW db aboveFuel (n + 1) ++
+  (match n, parent with
+   | k + 1, some p => repointBelowW db (k + 1) p k
+   | _, _ => [])
+
 /-- `BlockChain.insert`: canonical number, LastBlock, and — if the number was not already assigned to this block —
     LastHeader and LastFast.  As written (`atomicInsert`): one batch, the in-memory heads move after the flush; before deec78d:
-    separate puts, the in-memory head moved right after the LastBlock put. -/
-def insertW (v : Variant) (s : Em) (h : Hash) (n : Nat) : Em :=
+    separate puts, the in-memory head moved right after the LastBlock put.  `parent` is the block's parent hash (the
+    block is in memory), `aboveFuel` bounds the (unbounded) scan above. -/
+def insertW (v : Variant) (s : Em) (h : Hash) (n : Nat) (parent : Option Hash := none) (aboveFuel : Nat := 0) : Em :=
   let upd := canonHash s.db n != some h
   if !v.atomicInsert then
     let s := s.emit (.put (.canon n) (.ref h))
@@ -95,7 +138,8 @@ def insertW (v : Variant) (s : Em) (h : Hash) (n : Nat) : Em :=
     else s
   else
     let ws : Writes := [(.canon n, some (.ref h)), (.lastBlock, some (.ref h))] ++
-      (if upd then [(.lastHeader, some (.ref h)), (.lastFast, some (.ref h))] else [])
+      (if upd then (if v.insertCleans then insertCleanW s.db parent n aboveFuel else []) ++
+        [(.lastHeader, some (.ref h)), (.lastFast, some (.ref h))] else [])
     let s := s.emitHead (.batch ws) h
     if upd then { s with hhdr := h } else s
 
@@ -131,13 +175,13 @@ def delCanonAbove : Nat → Em → Nat → Em
     | some _ => delCanonAbove fuel (s.emit (.del (.canon i))) (i + 1)
 
 /-- re-point the chain block by block, oldest first: `insert` + `WriteTxLookupEntries(bc.db, …)` -/
-def reinsertAll (v : Variant) (xTxs : Hash → Option (List Nat)) : List (Hash × Hdr) → Em → Em
+def reinsertAll (v : Variant) (xTxs : Hash → Option (List Nat)) (aboveFuel : Nat) : List (Hash × Hdr) → Em → Em
   | [], s => s
   | (h, hd) :: rest, s =>
-    let s := insertW v s h hd.num
+    let s := insertW v s h hd.num (some hd.parent) aboveFuel
     let txs := (xTxs h).getD (bodyTxs s.db h)
     let s := s.emitAll ((lookupWrites h txs).map fun w => Event.put w.1 (Val.ref h))
-    reinsertAll v xTxs rest s
+    reinsertAll v xTxs aboveFuel rest s
 
 /-- `reorg(oldBlock, newBlock)`; the incoming block is not necessarily stored (before 141a732 it was not), so its header
     and transactions come from memory. `none` = returned an error before writing anything. -/
@@ -148,8 +192,8 @@ def reorgW (v : Variant) (s : Em) (old : Hash × Hdr) (b : Blk) : Option Em :=
     let xTxs : Hash → Option (List Nat) := fun h => if h = b.hash then some b.txs else none
     let deleted := oldChain.flatMap fun p => bodyTxs s.db p.1
     let added := newChain.flatMap fun p => (xTxs p.1).getD (bodyTxs s.db p.1)
-    let s := reinsertAll v xTxs newChain.reverse s
-    let s := if newChain.isEmpty then s else delCanonAbove (old.2.num + 2) s (b.num + 1)
+    let s := reinsertAll v xTxs (old.2.num + 2) newChain.reverse s
+    let s := if v.insertCleans || newChain.isEmpty then s else delCanonAbove (old.2.num + 2) s (b.num + 1)
     let diff := deleted.filter fun t => !added.contains t
     some (s.emitAll (diff.map fun t => Event.del (.lookup t)))
 
@@ -168,7 +212,7 @@ def writeBlock (v : Variant) (s : Em) (b : Blk) (canon : Bool) (flush : List Wri
     let cur := s.head
     if b.parent = cur then
       let s := s.emit (.batch (blockData b ++ lookupWrites b.hash b.txs))
-      insertW v s b.hash b.num
+      insertW v s b.hash b.num (some b.parent) (b.num + 2)
     else
       match blockNumber s.db cur with
       | none => s
@@ -181,14 +225,14 @@ def writeBlock (v : Variant) (s : Em) (b : Blk) (canon : Bool) (flush : List Wri
             | none => s
             | some s =>
               let s := s.emit (.batch (blockData b ++ lookupWrites b.hash b.txs))
-              insertW v s b.hash b.num
+              insertW v s b.hash b.num (some b.parent) (b.num + 2)
           else
             let s := s.emit (.batch (blockData b))                  -- flush the block first, then Reset
             match reorgW v s (cur, chd) b with
             | none => s
             | some s =>
               let s := s.emit (.batch (lookupWrites b.hash b.txs))
-              insertW v s b.hash b.num
+              insertW v s b.hash b.num (some b.parent) (b.num + 2)
 
 /-! ### Stop, SetHead -/
 
